@@ -140,9 +140,12 @@ def generate(repo, out, only=None):
                 # The source text is outside the translator's subset (a rewrite, harmless or not).  Fall back to the
                 # committed reference translation; the caller must then tie it to the code by the unit's direct
                 # correspondence (vlib/kernels.py for Slice, the check's own correspondence for SqlRange and Names).
-                with open(ref) as fh, open(os.path.join(out, name + ".v"), "w") as oh:
-                    oh.write(f"(* translator refused the current source ({r}); this is the reference translation coq/Ref/{name}.v *)\n")
-                    oh.write(fh.read())
+                text = (f"(* translator refused the current source; this is the reference translation coq/Ref/{name}.v *)\n"
+                        + open(ref).read())
+                dst = os.path.join(out, name + ".v")
+                if not os.path.exists(dst) or open(dst).read() != text:      # keep the timestamp when nothing changed
+                    with open(dst, "w") as oh:
+                        oh.write(text)
                 res[name] = f"FALLBACK: {r}"
                 continue
             res[name] = f"REFUSED: {r}"
